@@ -13,12 +13,14 @@ Expected(e) ==
   CASE e.op = "Zoned.fromLocal" -> Disambiguate(Z(e), e.args.w, e.args.dis)
     [] e.op = "Zoned.wall" -> Ok([w |-> Wall(Z(e), e.args.t), off |-> OffsetAt(Z(e), e.args.t)])
     [] e.op = "Zoned.views" -> IF e.args.via = "string" THEN (LET r == StringTrip(Z(e), e.args.t) IN IF r.kind = "ok" THEN Ok(Views(Z(e), r.val)) ELSE r) ELSE Ok(Views(Z(e), e.args.t))
+    [] e.op = "Zoned.text" -> Ok(RoundedText(Z(e), e.args.t, e.args.fd, e.args.unit, e.args.mode))
     [] e.op = "Zoned.fromPartial" -> InterpretBag(Z(e), e.args.w, e.args.offk, e.args.offmin * 60, e.args.dis, e.args.offopt)
     [] e.op = "Zoned.fromDate" -> IF e.args.tt = "none" THEN Ok(StartOfDay(Z(e), e.args.day * 86400)) ELSE Disambiguate(Z(e), e.args.day * 86400, "compatible")
     [] e.op = "Zoned.relTo" -> Interpret(Z(e), e.args.w, e.args.offk, e.args.off, "compatible", "reject", TRUE)
     [] e.op = "Zoned.fromStr" -> Interpret(Z(e), e.args.w, e.args.offk, e.args.off, e.args.dis, e.args.offopt, TRUE)
     [] e.op = "Zoned.add" -> ZAdd(Z(e), e.args.t, e.args.dur, Get(e.args, "ovf", "constrain"))
     [] e.op = "Zoned.subtract" -> ZSub(Z(e), e.args.t, e.args.dur, Get(e.args, "ovf", "constrain"))
+    [] e.op \in {"Zoned.until", "Zoned.since"} /\ Has(e.args, "oz") /\ IsOtherZone(Z(e), e.args.oz) /\ (IF Has(St(e), "smallest") THEN LargestR(e) ELSE Largest(e)) \in DateUnits -> ErrRange
     [] e.op \in {"Zoned.until", "Zoned.since"} ->
          IF Has(St(e), "smallest")
          THEN ZDiffRounded(Z(e), e.args.t, e.args.other, LargestR(e), St(e).smallest, Get(St(e), "inc", 1), Get(St(e), "mode", "trunc"), e.op = "Zoned.since")
@@ -41,10 +43,11 @@ ClsOf(e) ==
     [] e.op = "Zoned.fromDate" -> "fromDate/" \o e.args.tt \o "/" \o Classify(Z(e), e.args.day * 86400) \o "/" \o ZoneTag(Z(e))
     [] e.op = "Zoned.relTo" -> "relativeTo/" \o e.args.offk \o "/" \o Classify(Z(e), e.args.w) \o "/" \o ZoneTag(Z(e))
     [] e.op = "Zoned.fromStr" -> e.args.offk \o "/" \o e.args.offopt \o "/" \o Classify(Z(e), e.args.w) \o "/" \o ZoneTag(Z(e))
-    [] e.op \in {"Zoned.until", "Zoned.since"} -> Largest(e) \o "/" \o ZoneTag(Z(e))
+    [] e.op \in {"Zoned.until", "Zoned.since"} -> Largest(e) \o "/" \o ZoneTag(Z(e)) \o (IF Has(e.args, "oz") THEN "/other-zone" ELSE "")
     [] e.op = "ZDur.round" -> "lg-" \o St(e).largest \o "/sm-" \o St(e).smallest \o "/" \o ZoneTag(Z(e))
     [] e.op = "ZDur.total" -> e.args.unit \o "/" \o ZoneTag(Z(e))
     [] e.op = "Zoned.views" -> "views/" \o e.args.via \o "/" \o ZoneTag(Z(e))
+    [] e.op = "Zoned.text" -> "text/" \o e.args.via \o "/" \o e.args.mode \o "/" \o ZoneTag(Z(e))
     [] OTHER -> ZoneTag(Z(e))
 TInit == l = 1
 TNext == /\ l <= NEv /\ l' = l + 1
